@@ -746,6 +746,24 @@ async def _all_runs(home, tier, seed, tally, info):
     return planned, kmax, n_after, [w for w, _ in specs]
 
 
+# --- classifiers of the findings listed in known_findings.json (one specific failing shape each) -----------
+def kf_queued_flag_not_carried(witness, res):
+    """the ONLY difference is the queued flag of a waiting task: True before the reload, False after
+    (copy_to_reload_successor does not copy it; _reload_taskdefs rebuilds the queues empty)"""
+    if witness.get('field') == 'queued':
+        return witness.get('before') is True and witness.get('after') is False
+    d = witness.get('differs')
+    return bool(d) and set(d) == {'queued'} and witness.get('queued') is True and witness.get('status') == 'waiting'
+
+
+def kf_forced_output_not_recognised(witness, res):
+    """a prerequisite added by the reload on an output that was completed by `cylc set --out` (recorded in the
+    task_outputs table as "(manually completed)") stays unsatisfied: scenario `forced`, output w:xx"""
+    pre = witness.get('prerequisite') or []
+    return (witness.get('workflow') == 'forced' and list(pre[1:]) == ['w', 'xx']
+            and witness.get('recorded') == 'database' and witness.get('after') is False)
+
+
 def check(tier='quick', seed=0):
     import threading
     saved = _save_globals()
